@@ -95,7 +95,23 @@ def finish(hit, name, depth):
         return ("skip", "attrpath-binder")
     if kind in ("inherit", "inherit_from"):
         if kind == "inherit_from":
-            return ("skip", "inherit-from")
+            # `inherit (e) x;`: e is evaluated where the clause stands (inside a let / rec set its own
+            # bindings are in scope); x is then the attribute of the set e denotes
+            src = b.child_by_field_name("expression")
+            while src is not None and src.type == "parenthesized_expression":
+                src = src.child_by_field_name("expression")
+            if src is None or src.type != "variable_expression":
+                return ("skip", "inherit-from-complex-source")
+            r = resolve(b, src.text.decode(), depth + 1)
+            if r[0] != "binding":
+                return ("skip", "inherit-from-source-" + r[0])
+            sval = r[1].child_by_field_name("expression")
+            if sval is None or sval.type not in ("attrset_expression", "rec_attrset_expression"):
+                return ("skip", "inherit-from-source-not-literal")
+            hit2 = binding_named(bset(sval), name)
+            if not hit2:
+                return ("skip", "inherit-from-attribute-missing")
+            return finish(hit2, name, depth + 1)
         # `inherit x;` takes x from the scope enclosing the construct that holds the clause
         holder = b.parent.parent  # binding_set -> let/attrset
         return resolve(holder, name, depth + 1)
@@ -127,6 +143,11 @@ def docs_stream(ctx):
         # shadowing that re-declares the same text: layers with equal contents are still two layers
         "let\n  v = \"1\";\nin\nlet\n  v = \"1\";\nin\n",
         "let\n  v = \"1\";\n  w = v;\nin\nlet\n  u = 2;\nin\nlet\n  v = \"1\";\n  w = v;\nin\n",
+        # three and four layers, the name bound in several of them
+        "let\n  v = \"1\";\nin\nlet\n  v = \"2\";\nin\nlet\n  v = \"3\";\nin\n",
+        "let\n  v = \"1\";\nin\nlet\n  v = w;\n  w = \"2\";\nin\nlet\n  w = \"3\";\nin\nlet\n  u = v;\nin\n",
+        # an outer definition of the set an inner `inherit (e) v;` reads from
+        "let\n  e = {\n    v = \"0\";\n  };\nin\n",
     ]
     bodies = [
         ("{\n  version = v;\n  name = \"x\";\n}", ["version"]),
@@ -137,6 +158,9 @@ def docs_stream(ctx):
         ("rec {\n  v = \"5\";\n  src = {\n    rev = v;\n  };\n}", ["src.rev"]),
         ("{\n  a = w;\n  name = \"x\";\n}", ["a"]),
         ("rec {\n  a = w;\n  v = \"inner-rec\";\n}", ["a"]),
+        # the name arrives through `inherit (e) v;` next to a definition of e
+        ("rec {\n  e = {\n    v = \"1\";\n  };\n  inherit (e) v;\n  a = v;\n}", ["a"]),
+        ("{\n  inherit (e) v;\n  a = v;\n}", ["a"]),
         # nested paths: the reference sits in an inner set, binders at both levels
         ("rec {\n  v = \"0\";\n  a = rec {\n    version = v;\n    v = \"1\";\n  };\n}", ["a.version"]),
         ("{\n  v = \"0\";\n  a = rec {\n    version = v;\n    v = \"1\";\n  };\n}", ["a.version"]),
